@@ -334,7 +334,14 @@ def replay(c, hb):
     for r in rows:
         if r[0] != "-" and not r[0].startswith("defschemas"):
             print("\t".join(x[:400] for x in r[:3]))
-    c.finish("replay", "replay of " + target)
+    # a replay does not replace the evidence of the last full run
+    for f in c.known:
+        if c.known_hit.get(f["id"]):
+            print("KNOWN-FINDING: property=%s %s [%s]" % (c.pid, f["what"], f["id"]))
+    for l in c.violation_lines:
+        print(l)
+    print("C12 replay %s: %s" % (target, "VIOLATED" if c.violation_lines else "no violation (failures, if any, are recorded findings)"))
+    sys.exit(1 if c.violation_lines else 0)
 
 
 def main():
